@@ -183,6 +183,10 @@ func (a *arrayObject) sortLen() int {
 }
 
 func (a *arrayObject) sortGet(i int) Value {
+	if i >= len(a.values) {
+		// the comparator has shrunk the array while it is being sorted
+		return nil
+	}
 	v := a.values[i]
 	if p, ok := v.(*valueProperty); ok {
 		v = p.get(a.val)
@@ -191,6 +195,10 @@ func (a *arrayObject) sortGet(i int) Value {
 }
 
 func (a *arrayObject) swap(i int, j int) {
+	if i >= len(a.values) || j >= len(a.values) {
+		// the comparator has shrunk the array while it is being sorted
+		return
+	}
 	a.values[i], a.values[j] = a.values[j], a.values[i]
 }
 
